@@ -78,6 +78,7 @@ type Plan struct {
 	Clock0    int64             `json:"clock0,omitempty"` // seconds after 2000-01-01T00:00Z at which the world starts
 	LatMicros int               `json:"latMicros,omitempty"`
 	StepMs    int64             `json:"stepMs,omitempty"` // extra simulated time between operations
+	NoGap     bool              `json:"noGap,omitempty"`  // operations are NOT separated by an mtime granule (scripted use: save configs and sign at once)
 	Ops       []Op              `json:"ops"`
 	Meta      map[string]string `json:"meta,omitempty"`
 }
@@ -264,6 +265,9 @@ func (w *World) seedEntropy(op *Op) {
 }
 
 func (w *World) step() {
+	if w.Plan.NoGap {
+		return
+	}
 	g := time.Duration(w.Plan.GranNs)
 	if g < 1 {
 		g = 1
@@ -274,11 +278,21 @@ func (w *World) step() {
 // Exec runs one plan inside one synctest bubble and returns the world.
 func Exec(t *testing.T, plan *Plan, orc Oracle) *World {
 	var w *World
+	execInto(t, plan, orc, &w)
+	return w
+}
+
+// execInto is Exec with the world published through dst as soon as it exists, so that a caller
+// that is unwound by testing.FailNow (the race lane: the testing package fails a bubble during
+// which the race detector fired) still holds the world.
+func execInto(t *testing.T, plan *Plan, orc Oracle, dst **World) {
+	var w *World
 	oldLocal := time.Local
 	defer func() { time.Local = oldLocal }()
 	synctest.Test(t, func(t *testing.T) {
 		w = &World{T: t, Plan: plan, Ents: map[string]*EntitySpec{}, Profs: map[string]*ProfileSpec{},
 			Probe: map[string]int{}, State: map[string]any{}}
+		*dst = w
 		w.FS = NewSimFS(time.Duration(plan.GranNs))
 		time.Local = loadTZ(plan.TZ)
 		start := time.Now()
@@ -300,7 +314,6 @@ func Exec(t *testing.T, plan *Plan, orc Oracle) *World {
 		}
 		w.SimSeconds = time.Since(start).Seconds()
 	})
-	return w
 }
 
 func (w *World) apply(op *Op, orc Oracle) {
@@ -338,6 +351,8 @@ func (w *World) applyActor(op *Op) {
 	switch op.K {
 	case "clock":
 		time.Sleep(time.Duration(op.N) * time.Second)
+	case "tz":
+		time.Local = loadTZ(op.Arg) // the machine's zone changes between runs
 	case "put-ent":
 		s := op.Spec.Clone()
 		if old, ok := w.Ents[s.ID]; ok {
